@@ -232,7 +232,6 @@ func (d *testIface) VarlinkDispatch(ctx context.Context, c varlink.Call, methodn
 	return ret
 }
 
-
 // ---------------------------------------------------------------------------
 // building the service and the actors
 
